@@ -175,7 +175,7 @@ Proof.
   assert (FP : forall k, find l k = find (ents (hd_ c)) k) by (intro k; exact (find_perm K V keqb keqb_spec _ _ k P ND)).
   destruct o as [k v|k|k|k| | |]; cbn [CacheModel.step].
   - (* Put *)
-    unfold cache_put, put_refuse. rewrite Hlim.
+    unfold cache_put, put_refuse. change put_stored_result with true. change put_refused_result with false. rewrite Hlim.
     destruct (sizeOf v >? lim) eqn:G.
     { exists c, (RBool false), [], l. cbn. rewrite G. split; [reflexivity|]. split; [reflexivity|].
       split; [exact CI|exact P]. }
@@ -266,7 +266,8 @@ Proof.
     split. { cbn. rewrite FP. destruct (find (ents (hd_ c)) k); reflexivity. }
     split; [exact CI|exact P].
   - (* Remove *)
-    unfold cache_remove. rewrite (check_spec K V keqb keqb_spec vzero (store c) k LI).
+    unfold cache_remove. change remove_found_result with true. change remove_absent_result with false.
+    rewrite (check_spec K V keqb keqb_spec vzero (store c) k LI).
     destruct (find (ents (hd_ c)) k) as [old|] eqn:F; cbn [cbind].
     + destruct (remove_spec K V keqb keqb_spec hv HF_remove (store c) k old LI F) as (s1 & e & HR & LI1 & Hk & Hv & P1 & _ & _).
       rewrite HR. cbn [cbind].
